@@ -12,6 +12,8 @@ pub const UNKNOWN_LANES: [&str; 2] = ["nope", "zz9"];
 #[derive(Clone, Debug)]
 pub enum Step {
     Attach(usize),
+    /// The connection attaches again (same routing id) if the runtime removed it for inactivity; otherwise nothing.
+    Reattach(usize),
     Link(usize, String),
     Sync(usize, String),
     Unlink(usize, String),
@@ -470,7 +472,25 @@ impl<'a> Gen<'a> {
                     let how = *self.rng.pick(&[FailHow::CorruptTag, FailHow::CorruptTag, FailHow::Truncated, FailHow::CloseWriter]);
                     steps.push(Step::Lane(l, LaneCtl::Fail(how)));
                 }
-                10 => steps.push(Step::Advance(if cfg.inactive_ms.is_some() { *self.rng.pick(&[3u64, 10, 30, 60]) } else { *self.rng.pick(&[1u64, 3, 10, 30]) })),
+                10 => {
+                    steps.push(Step::Advance(if cfg.inactive_ms.is_some() { *self.rng.pick(&[3u64, 10, 30, 60]) } else { *self.rng.pick(&[1u64, 3, 10, 30]) }));
+                    if cfg.prune_ms.is_some() && self.rng.chance(2, 3) {
+                        // a pruned connection speaks again: it re-attaches under its id and addresses a lane
+                        if self.rng.chance(1, 3) {
+                            steps.push(Step::Run(*self.rng.pick(&[1u32, 3, 12])));
+                        }
+                        steps.push(Step::Reattach(r));
+                        match self.rng.below(4) {
+                            0 => steps.push(Step::Link(r, self.lane_name(cfg, focus))),
+                            1 => steps.push(Step::Sync(r, self.lane_name(cfg, focus))),
+                            2 => {
+                                let l = self.focus_lane(cfg, focus);
+                                steps.push(self.lane_change(cfg, l, focus));
+                            }
+                            _ => {}
+                        }
+                    }
+                }
                 11 => {
                     steps.push(Step::AgentReturn(self.rng.bool()));
                     break;
